@@ -194,7 +194,12 @@ func (cc *ClientConnection) startTls(conn streams.Connection) (streams.Connectio
 	} else {
 		tlsConfig = &tls.Config{}
 	}
-	tlsConfig.ServerName = cc.host
+	// The expected server name is the host of the upstream address, without its port.
+	serverName := cc.host
+	if h, _, err := net.SplitHostPort(serverName); err == nil {
+		serverName = h
+	}
+	tlsConfig.ServerName = serverName
 
 	log.Tracef("[Client] Executing TLS handshake")
 	tlsConn := tls.Client(conn, tlsConfig)
